@@ -261,7 +261,17 @@ func (c *Ctx) stress(b *SynBatch, cases []*SynCase, rng *rand.Rand, fl []string)
 		if cs.pairingProblem() != "" || cs.G.errTerm() >= 0 {
 			continue
 		}
-		pool := synInputs(rng, cs.G, 3, 10, 10, false)
+		if cs.G.hasCycle() {
+			continue // the resolved parser of a cyclic grammar may reduce for ever: nothing to compare
+		}
+		var pool [][]int
+		for _, in := range synInputs(rng, cs.G, 3, 10, 10, false) {
+			if len(in) <= 16 {
+				// short inputs: this check is about interference between instances, and a run that
+				// takes long under the race detector would meet the watchdog on a loaded machine
+				pool = append(pool, in)
+			}
+		}
 		texts := make([][]string, nG)
 		for g := range texts {
 			for i := 0; i < per; i++ {
@@ -269,8 +279,17 @@ func (c *Ctx) stress(b *SynBatch, cases []*SynCase, rng *rand.Rand, fl []string)
 			}
 		}
 		seq, _ := b.Drv.Run([]parseOp{{Op: "parse", G: cs.Sub, Texts: texts, Concurrent: true, Schedule: seqSchedule(nG, 1<<16)}})
+		if b.Drv.Hung {
+			c.Add("stress_runs_ended_by_watchdog", 1)
+			continue
+		}
 		for rep := 0; rep < c.pick(1, 3); rep++ {
 			res, _ := b.Drv.Run([]parseOp{{Op: "parse", G: cs.Sub, Texts: texts, Concurrent: true}})
+			if b.Drv.Hung {
+				// a verdict needs two complete runs
+				c.Add("stress_runs_ended_by_watchdog", 1)
+				continue
+			}
 			c.Add("stress_parses", int64(nG*per))
 			if b.Drv.Race != "" && c.firstFor("race"+cs.Text+fmt.Sprint(fl)) {
 				c.Violation(Replay{Kind: "concurrent", What: fmt.Sprintf("the race detector reports an unsynchronised access in generated code (flags %v, %d goroutines with their own lexer and parser):\n%s\n%s", fl, nG, indent(b.Drv.Race), indent(cs.Text)),
